@@ -21,8 +21,10 @@ ENTRY = dict(
     trusted_base=["verif_server.go scripted server (built from the library's own server sub-steps) and verif_c12.go view accessors",
                   "harness/hs ClientHello wire parser (offered sets)", "Go crypto/x509 against a throw-away CA",
                   "cryptography, certificate validation, Finished and record protection abstracted into the flight's f_crypto_ok bit"],
-    assumes=["the client's view equals the offered sets on its wire hello (synced v w): checked for every parrot on every run, not proved "
-             "for arbitrary custom specs (needs the ClientHello marshal model of C01/C02)",
+    assumes=["the client's view equals the offered sets on its wire hello (synced v w): checked for every client on every run, and PROVED from a "
+             "model of writeToUConn/ApplyConfig and the marshal model (Props/C12.v C12_view_is_wire and the *_from_spec theorems, notes/Compose.md) "
+             "modulo the premises listed there: typed_ext (no negotiation extension smuggled through GenericExtension/GREASE), psk_agree (the PSK "
+             "extension serialises what setPskToUConn wrote), wf_specb/spec_fitsb of ApplyPreset's output, compression list contains 0",
              "no ECH configured, no QUIC; TLS 1.2 ticket resumption and TLS 1.3 PSK modelled and exercised (Model/NegotiateSess.v), session-id (non-ticket) caches not (the Go server has none)"],
     level_text="Proof for every view, wire hello and server flight that a completed handshake carries only offered selections "
                "(suite 1.3/1.2 incl. suite confusion, 1.3 group, HRR group, ALPN, compression, PSK index, certificate-compression "
